@@ -41,10 +41,10 @@ IMG = {"img1": "registry.example.com/tools/img:1", "img2": "registry.example.com
 TIERS = {
     "quick": dict(MaxChain=3, OwnShapes=["none", "input-ref", "data-copy", "appdep-ref"],
                   UpShapes=["pfile-ref", "pfile-copy", "pdir-ref"], Up2Shapes=["pfile-ref", "pdir-ref"],
-                  ImageShapes=["local", "k8s-img1"], MaxFeatures=1),
+                  ImageShapes=["local", "k8s-img1"], MaxFeatures=1, nproc=4),
     "thorough": dict(MaxChain=3, OwnShapes=["none", "input-ref", "input-copy", "data-ref", "data-copy", "appdep-ref", "appdep-link"],
                      UpShapes=["pfile-ref", "pfile-copy", "pfile-output", "pdir-ref"], Up2Shapes=["pfile-ref", "pdir-ref"],
-                     ImageShapes=["local", "lsf-img1", "k8s-img1"], MaxFeatures=2),
+                     ImageShapes=["local", "lsf-img1", "k8s-img1"], MaxFeatures=2, nproc=8),
 }
 SCHEMES = ["plain", "renamed", "affix", "affix2", "digits", "digitmid"]
 
@@ -330,6 +330,78 @@ def execute_pairs(chk, pairs, realenv):
     return nb
 
 
+class Recorder:
+    """what a worker process needs of a Check: it records, the parent replays the records in a fixed order"""
+
+    def __init__(self, scratch):
+        self.scratch = scratch
+        self.calls = []
+
+    def violation(self, key, what, replay=None):
+        self.calls.append(["violation", key, what, replay])
+
+    def evaluated(self, case_key=None, nontrivial=True, n=1):
+        self.calls.append(["evaluated", case_key])
+
+    def sample(self, s, limit=5):
+        if sum(1 for c in self.calls if c[0] == "sample") < limit:
+            self.calls.append(["sample", s])
+
+
+def execute_parallel(chk, pairs, nproc):
+    """the pairs are split by base world over nproc worker processes (python -m harness.checks.c16 job out); the
+    result does not depend on the scheduling: records are merged in the order of the slices"""
+    import subprocess
+    import sys
+    from ..common import VERIF
+    bases = sorted({json.dumps(p["a"], sort_keys=True) for p in pairs})
+    owner = {b: i % nproc for i, b in enumerate(bases)}
+    procs = []
+    for k in range(nproc):
+        mine = [p for p in pairs if owner[json.dumps(p["a"], sort_keys=True)] == k]
+        jp = os.path.join(chk.scratch, "job%d.json" % k)
+        with open(jp, "w") as f:
+            json.dump({"scratch": os.path.join(chk.scratch, "w%d" % k), "pairs": mine}, f)
+        procs.append((k, jp, subprocess.Popen([sys.executable, "-W", "ignore", "-m", "harness.checks.c16", jp, jp + ".out"], cwd=VERIF,
+                                              stdout=subprocess.PIPE, stderr=subprocess.STDOUT, text=True)))
+    n = 0
+    for (k, jp, p) in procs:
+        out, _ = p.communicate(timeout=3000)
+        if p.returncode != 0 or not os.path.exists(jp + ".out"):
+            raise MachineryError("C16 worker %d failed (rc=%s):\n%s" % (k, p.returncode, out[-3000:]))
+        rec = json.load(open(jp + ".out"))
+        if rec.get("machinery"):
+            raise MachineryError(rec["machinery"])
+        n += rec["n"]
+        for c in rec["calls"]:
+            if c[0] == "violation":
+                chk.violation(c[1], c[2], c[3])
+            elif c[0] == "evaluated":
+                chk.evaluated(c[1])
+            else:
+                chk.sample(c[1], limit=4)
+    return n
+
+
+def worker_main(job_path, out_path):
+    import logging
+    import warnings
+    warnings.simplefilter("ignore")
+    job = json.load(open(job_path))
+    os.makedirs(job["scratch"], exist_ok=True)
+    rec = Recorder(job["scratch"])
+    res = {"calls": rec.calls, "n": 0}
+    try:
+        from .. import realenv
+        res["n"] = execute_pairs(rec, job["pairs"], realenv)
+    except MachineryError as e:
+        res["machinery"] = str(e)
+    with open(out_path + ".tmp", "w") as f:
+        json.dump(res, f, default=str)
+    os.replace(out_path + ".tmp", out_path)
+    shutil.rmtree(job["scratch"], ignore_errors=True)
+
+
 def run(tier):
     chk = Check(PID, tier)
     gen = os.path.join(SPEC, "gen")
@@ -344,6 +416,11 @@ def run(tier):
         if not r["coverage"].get(act):
             raise MachineryError("action %s of Memo.tla never taken (vacuous run): %s" % (act, r["coverage"]))
     chk.add_tlc(r)
+    for witness in ("NoAspectMatters", "EveryAspectMatters", "FuzzyIsStrong", "NeverUndefined"):
+        cw = write_cfg(os.path.join(gen, "Memo_witness_%s.cfg" % tier), t, False, [witness])
+        rw = tlc.run_tlc("Memo", cw, workers=4, timeout=600, expect_violation=True)
+        if rw["violated"] != witness:
+            raise MachineryError("vacuity guard: %s is not violated by the family of Memo.tla (%s)" % (witness, rw["violated"]))
     # 2. the pairs
     c2 = write_cfg(os.path.join(gen, "Memo_emit_%s.cfg" % tier), t, True, ["EmitPair"])
     r2 = tlc.run_tlc("Memo", c2, workers=1, timeout=600)
@@ -352,8 +429,7 @@ def run(tier):
         raise MachineryError("TLC emitted %d pairs but explored %d states" % (len(pairs), r["distinct"]))
     if len(pairs) < 500:
         raise MachineryError("TLC emitted only %d pairs" % len(pairs))
-    from .. import realenv
-    n = execute_pairs(chk, pairs, realenv)
+    n = execute_parallel(chk, pairs, t["nproc"])
     chk.cov["rule"] = ("pairs = base worlds (chain length <= %d; shapes of the consumed own/produced file, back-end/image, same-stage; at most "
                        "%d non-default features) x every applicable single-aspect perturbation of Memo.tla at every component of the chain; "
                        "both worlds instantiated as real experiments, strong and fuzzy hash of every chain component compared; "
@@ -376,3 +452,8 @@ def replay(path):
     chk = Check(PID, "quick")
     execute_pairs(chk, [d["replay"]["pair"]], realenv)
     return chk.finish()
+
+
+if __name__ == "__main__":
+    import sys
+    worker_main(sys.argv[1], sys.argv[2])
